@@ -19,11 +19,14 @@ RunTo(s) == IF s.res # "run" \/ s.ptr > Len(s.input) THEN s ELSE RunTo(Step(s))
 Ctl(s) == [st |-> s.st, at |-> s.at, br |-> s.br, pw |-> s.pw, bufEmpty |-> s.buf = <<>>, res |-> s.res]
 After(in, b) == RunTo(PInit(Preprocess(in, FALSE), (IF b = None THEN None ELSE Some(BaseRec[Get(b)])), EmptyUrl, "none", None))
 
-VARIABLE pu
-Init == pu \in {[p |-> sc \o p, u |-> u, b |-> b] : sc \in Schemes, p \in Strs(PAlphabet, 0, PMax), u \in Strs(UAlphabet, 1, UMax), b \in BaseOpts}
-Next == FALSE /\ pu' = pu
+(* two-step fan-out (TLC evaluates initial states on one thread): first (scheme, unit, base), then the prefix *)
+VARIABLES pu, ph
+Init == pu = [p |-> <<>>, u |-> <<>>, b |-> None] /\ ph = 0
+Next == \/ ph = 0 /\ ph' = 1 /\ \E sc \in Schemes, u \in Strs(UAlphabet, 1, UMax), b \in BaseOpts : pu' = [p |-> sc, u |-> u, b |-> b]
+        \/ ph = 1 /\ ph' = 2 /\ \E p \in Strs(PAlphabet, 0, PMax) : pu' = [pu EXCEPT !.p = @ \o p]
+Active == ph = 2
 
-IsPump == LET s1 == After(pu.p \o pu.u, pu.b)
+IsPump == Active /\ LET s1 == After(pu.p \o pu.u, pu.b)
               s2 == After(pu.p \o pu.u \o pu.u, pu.b)
           IN s1.res = "run" /\ s2.res = "run" /\ Ctl(s1) = Ctl(s2)
 (* design: pumping never makes the work model super-linear: work(p.u.u) - work(p.u) is bounded by a constant times |u| *)
